@@ -14,6 +14,8 @@ open Irismod.Props.Tie Irismod.Gen.PureCoinswap Irismod.Sdk
 #print axioms AddUnilateral_mint_eq_model
 #print axioms RemoveUnilateral_out_eq_model
 #print axioms Liquidity_guards
+#print axioms swap_pricing_calls
+#print axioms swap_guards
 -- the translated functions compute: the six triples of the repository's own TestGetInputPrice/TestGetOutputPrice
 -- (fee 0.003) and an overflow panic
 #eval s!"nonvacuous {GetInputPrice 100 1000 1000 ⟨3000000000000000⟩ == some 90 && GetInputPrice 200 1000 1000 ⟨3000000000000000⟩ == some 166 && GetOutputPrice 100 1000 1000 ⟨3000000000000000⟩ == some 112 && GetOutputPrice 300 1000 1000 ⟨3000000000000000⟩ == some 430 && GetInputPrice (2^200) 1 (2^100) ⟨3000000000000000⟩ == none && AddLiquidity_depositAmt_1 3000 7 2000 == some 11}"
